@@ -659,7 +659,8 @@ func (e *env) snapshot(why string) {
 		for _, ss := range s.Sessions {
 			slots := []map[string]any{}
 			for _, sl := range ss.Slots {
-				slots = append(slots, map[string]any{"q": clampU32(sl.LastSequenceID), "busy": sl.InFlight, "w": sl.Waiters})
+				slots = append(slots, map[string]any{"q": clampU32(sl.LastSequenceID), "busy": sl.InFlight, "w": sl.Waiters,
+					"cst": statusName(sl.CachedStatus), "clen": sl.CachedLength})
 			}
 			sess = append(sess, map[string]any{"sid": e.sess(ss.SessionID), "cid": e.cid(ss.ClientID), "slots": slots})
 		}
